@@ -26,6 +26,7 @@ OUTSIDE = {
  "r14-C15-v1": "a recovery that waits for the end of the request body is slow, not wrong; the body of the case ends after 300 ms (third review)",
  "r13-C03-v2": "whether an informational status counts as 'written' is C13's to say (third review; C13 reports it)",
  "r14-C03-v2": "whether a Write of no bytes counts as 'written' is C13's to say (third review; C13 reports it)",
+ "r16-C11-v1": "the defect shows through Headers(), which is not part of C11 (C09 and C10 report it)",
  "r14-C01-v1": "the defect is in Group: C01 registers flat route sets (C11 reports it)",
  "r14-C01-v2": "needs a refused registration: C01 speaks of registered sets (C08 reports it)",
  "r14-C03-v1": "needs a before-function that panics: none in C03 (C13 and C15 report it)",
